@@ -3,6 +3,7 @@ import GridVerif.Props.C12.Listing
 import GridVerif.Props.C12.Logic
 import GridVerif.Props.C12.Full
 import GridVerif.Props.C12.FullDemo
+import GridVerif.Props.C12.Sectors
 
 #print axioms GridVerif.C12.bisect_left_least_index
 #print axioms GridVerif.C12.resolve_spec
@@ -42,3 +43,7 @@ import GridVerif.Props.C12.FullDemo
 #print axioms GridVerif.C12.gen_init_full_reject
 #print axioms GridVerif.C12.gen_init_full_unknown_method
 #print axioms GridVerif.C12.demoLoad_ok
+#print axioms GridVerif.C12.gen_find_degrees_unfold
+#print axioms GridVerif.C12.gen_sector_per_shell
+#print axioms GridVerif.C12.gen_pruned_shell_not_coarser
+#print axioms GridVerif.C12.gen_find_degrees_append
